@@ -1,5 +1,8 @@
 """C16 implementation runner: N real threads, each running a generated asynq program (op list) on the
 real library, concurrently (tiny switch interval, repeated) and alone; per-thread event traces.
+The threads of a case come in GENERATIONS: the threads of one generation are released together, the next
+generation is started only after all of them have been joined (so the OS may hand their idents to the new
+threads, and whatever they left behind - un-awaited deduplicated tasks, profiler entries - is still there).
 
 Everything the traces contain is read through public surface: DebugBatchItem / batch.index / item.index,
 scheduler.on_before_batch_flush, get_active_task(), get_scheduler() + str(), profiler.flush(),
@@ -21,6 +24,12 @@ from asynq.asynq_to_async import is_asyncio_mode
 
 tl = threading.local()          # the runner's own per-thread handle on "its" environment
 RUN = None                      # the run in progress (runs are sequential)
+PERF = False                    # _debug.options.COLLECT_PERF_STATS of the case
+LOCK = threading.Lock()
+TASK_OWNER = {}                 # id(dleaf task) -> (task, Env that got it first): for the whole case, all runs and
+                                # generations (strong refs: ids stay unique)
+IDENTS = []                     # threading.get_ident() of every thread of the case that has finished
+REUSED = [0]                    # how many threads were given the ident of a finished thread of the case
 
 
 def T(b):
@@ -51,10 +60,37 @@ class Env(object):
         self.cur.append({"EAnomaly": [{"s": what}]})
 
 
+class Req(object):
+    """Argument of the deduplicated function: a request compared by (kind, key) only, so two threads asking
+    for the same thing build equal, not identical, arguments; remembers the environment that built it."""
+    __slots__ = ("kind", "key", "env")
+
+    def __init__(self, kind, key, env):
+        self.kind = kind
+        self.key = key
+        self.env = env
+
+    def __eq__(self, other):
+        return isinstance(other, Req) and (self.kind, self.key) == (other.kind, other.key)
+
+    def __ne__(self, other):
+        return not self == other
+
+    def __hash__(self):
+        return hash((self.kind, self.key))
+
+    def __repr__(self):
+        return "Req(%d, %d, t%d)" % (self.kind, self.key, self.env.tid)
+
+
+def task_id(t):
+    """The profiler id handed to a task at creation (async_task.py:85-86); 0 without the option."""
+    return getattr(t, "_id", 0) if PERF else 0
+
+
 class Run(object):
     def __init__(self, n):
         self.envs = [Env(self, i) for i in range(n)]
-        self.task_owner = {}     # id(dleaf task) -> (task, tid)   (strong refs: ids stay unique)
         self.sched_owner = {}    # id(scheduler) -> (scheduler, tid)
         self.lock = threading.Lock()
 
@@ -80,10 +116,10 @@ def task_name(E, t):
             E.anomaly("active-task:foreign-%s" % fn)
         return {"Some": [{"TN": [t.args[1]]}]}
     if fn == "dleaf":
-        own = E.run.task_owner.get(id(t))
-        if own is not None and own[0] is t and own[1] != E.tid:
+        own = TASK_OWNER.get(id(t))
+        if own is not None and own[0] is t and own[1] is not E:
             E.anomaly("active-task:foreign-dleaf")
-        return {"Some": [{"TD": [t.args[0], t.args[1]]}]}
+        return {"Some": [{"TD": [t.args[0].kind, t.args[0].key]}]}
     return {"Some": [{"TOther": [{"s": fn}]}]}
 
 
@@ -142,20 +178,31 @@ def item_value(E, v):
     return {"RInt": [v[2]]}
 
 
+def call_dleaf(E, kind, key):
+    """One call of the shared deduplicated function by E's program; says whether the call made a new
+    task or returned an existing one, and whose."""
+    t = dleaf.asynq(Req(kind, key, E))
+    with LOCK:
+        known = id(t) in TASK_OWNER
+        own = TASK_OWNER.setdefault(id(t), (t, E))
+    if own[0] is t and own[1] is not E:
+        E.anomaly("deduplicate:got-foreign-task")
+    E.log({"EOld" if known else "ENew": [{"TD": [kind, key]}, task_id(t)]})
+    return t
+
+
 def mk(E, c):
     (k, a), = c.items()
     if k == "Node":
-        return node.asynq(E.tid, a[0], a[1], a[2])
-    if k == "Leaf":
-        return leaf.asynq(E.tid, a[0], a[1], a[2], a[3])
-    if k == "DLeaf":
-        t = dleaf.asynq(a[0], a[1])
-        with E.run.lock:
-            own = E.run.task_owner.setdefault(id(t), (t, E.tid))
-        if own[0] is t and own[1] != E.tid:
-            E.anomaly("deduplicate:got-foreign-task")
-        return t
-    raise ValueError(c)
+        t = node.asynq(E.tid, a[0], a[1], a[2])
+    elif k == "Leaf":
+        t = leaf.asynq(E.tid, a[0], a[1], a[2], a[3])
+    elif k in ("DLeaf", "Spec"):
+        return call_dleaf(E, a[0], a[1])
+    else:
+        raise ValueError(c)
+    E.log({"ENew": [{"TN": [a[0]]}, task_id(t)]})
+    return t
 
 
 @asynq_deco()
@@ -166,7 +213,8 @@ def node(tid, n, ctx, children):
     probe(E, nm, 0)
     with mkctx(E, ctx):
         futs = [mk(E, c) for c in children]
-        rs = yield futs
+        # a Spec child is created (and registered by deduplicate) but not awaited
+        rs = yield [f for f, c in zip(futs, children) if "Spec" not in c]
         probe(E, nm, 1)
     probe(E, nm, 2)
     return {"RList": [rs]}
@@ -187,8 +235,11 @@ def leaf(tid, n, ctx, kind, key):
 
 @deduplicate()
 @asynq_deco()
-def dleaf(kind, key):
+def dleaf(req):
     E = tl.env
+    kind, key = req.kind, req.key
+    if req.env is not E:
+        E.anomaly("deduplicate:task-made-for-another-thread-ran-here")
     nm = {"TD": [kind, key]}
     probe(E, nm, 0)
     v = yield new_item(E, kind, key)
@@ -230,6 +281,23 @@ def adopt_scheduler(E):
     s.on_before_batch_flush.subscribe(on_flush(E, s))
 
 
+_entry_re = re.compile(r"^\d{6}\.[\w.<>]*?\b(?:(node|leaf)\(\((\d+), (\d+),|dleaf\(\(Req\((\d+), (\d+), t(\d+)\))")
+
+
+def entry_task(E, name):
+    """Which task a profiler entry is about: "%06d.<function>(<args> <kwargs>)" (async_task.py:123-137)."""
+    m = _entry_re.match(name)
+    if m is None:
+        return {"TOther": [{"s": name[7:40]}]}
+    if m.group(1):
+        if int(m.group(2)) != E.tid:
+            E.anomaly("profiler:entry-of-another-thread's-task")
+        return {"TN": [int(m.group(3))]}
+    if int(m.group(6)) != E.tid:
+        E.anomaly("profiler:entry-of-another-thread's-task")
+    return {"TD": [int(m.group(4)), int(m.group(5))]}
+
+
 _sched_re = re.compile(r"\((\d+) tasks, (\d+) batches; active task: (.*)\)$", re.S)
 
 
@@ -254,7 +322,10 @@ def exec_op(E, op):
             E.log({"EFlush": ["true", a[0], b.index, keys]})
             b.flush()
     elif k == "ORun":
-        root = mk(E, a[0])
+        c = a[0]
+        if "Spec" in c:
+            c = {"DLeaf": c["Spec"]}
+        root = mk(E, c)
         r = root.value()
         E.log({"EResult": [r]})
     elif k == "OProf":
@@ -262,11 +333,15 @@ def exec_op(E, op):
         for st in profiler.flush():
             name = st.get("name", "")
             if len(name) > 7 and name[:6].isdigit() and name[6] == ".":
-                ents.append({"PTask": [int(name[:6])]})
+                ents.append({"PTask": [entry_task(E, name), int(name[:6])]})
             else:
                 ents.append("PBatch")
             E.extra.append([name, st.get("num_deps"), [d[0] for d in st.get("dependencies", [])]])
         E.log({"EProf": [ents]})
+    elif k == "OPReset":
+        profiler.reset()
+    elif k == "OSpec":
+        call_dleaf(E, a[0], a[1])        # created outside any task and dropped: never awaited
     elif k == "OSched":
         s = asynq.scheduler.get_scheduler()
         if s is not E.sched:
@@ -300,10 +375,13 @@ def thread_main(E, prog, barrier):
         barrier.wait()
         E.cur = []
         adopt_scheduler(E)
+        me = threading.get_ident()
+        with LOCK:
+            if me in IDENTS:
+                REUSED[0] += 1
         if asynq.scheduler.get_active_task() is not None:
             E.anomaly("active-task:not-None-on-a-fresh-thread")
-        if profiler.flush():
-            E.anomaly("profiler:buffer-not-empty-on-a-fresh-thread")
+        # (no profiler.reset()/flush() here: whether a thread starts with one is the program's business)
         for op in prog:
             E.cur = []
             try:
@@ -318,24 +396,30 @@ def thread_main(E, prog, barrier):
         E.trace.append(E.cur)
     except BaseException as e:      # outside any op (barrier, first use of the scheduler): part of the trace
         E.trace.append([{"EExc": [{"s": "thread-main:" + type(e).__name__}]}])
+    finally:
+        with LOCK:
+            IDENTS.append(threading.get_ident())
 
 
-def run_threads(progs, which, fast):
-    """Runs progs[i] on a fresh thread for each i in `which`, all at the same time."""
+def run_threads(progs, gens, fast):
+    """Runs progs[i] on a fresh thread for each i in gens[0], all at the same time; when all of them have
+    exited, the same for gens[1], ..."""
     global RUN
     run = Run(len(progs))
     RUN = run
-    barrier = threading.Barrier(len(which))
-    ths = [threading.Thread(target=thread_main, args=(run.envs[i], progs[i], barrier), name="vt%d" % i, daemon=True)
-           for i in which]
     old = sys.getswitchinterval()
     if fast:
         sys.setswitchinterval(1e-6)
     try:
-        for t in ths:
-            t.start()
-        for t in ths:
-            t.join()
+        for which in gens:
+            barrier = threading.Barrier(len(which))
+            ths = [threading.Thread(target=thread_main, args=(run.envs[i], progs[i], barrier), name="vt%d" % i, daemon=True)
+                   for i in which]
+            for t in ths:
+                t.start()
+            for t in ths:
+                t.join()
+            del ths
     finally:
         sys.setswitchinterval(old)
     return run
@@ -354,10 +438,23 @@ def first_diff(a, b):
     return [min(len(a), len(b)), "ops"]
 
 
-CASE_DEADLINE = 12.0
+CASE_DEADLINE = 10.0
+RETRY_DEADLINE = 16.0       # both together stay under the driver's 30 s per-case alarm
 
 
 def run_case(c):
+    """A case that does not finish within CASE_DEADLINE is run once more (fresh child, longer deadline):
+    with 16 runner processes of up to 16 threads each under a 1 us switch interval, a heavy case on a loaded
+    machine was seen to take 25x its usual 0.2 s; {"Hang": []} is reported when both attempts hang."""
+    out = run_case_once(c, CASE_DEADLINE)
+    if "Hang" in out:
+        out = run_case_once(c, RETRY_DEADLINE)
+        if "Hang" not in out:
+            out["retried_after_deadline"] = True
+    return out
+
+
+def run_case_once(c, deadline):
     """Each case runs in a forked child: a hang or threads left spinning by a broken library cannot
     leak into the next case; the parent kills the child at the deadline and reports {"Hang": []}."""
     import json
@@ -372,6 +469,10 @@ def run_case(c):
         try:
             os.close(r)
             signal.alarm(0)
+            dump = os.environ.get("C16_HANG_DUMP")      # debugging aid: thread stacks of a hung child
+            if dump:
+                import faulthandler
+                faulthandler.register(signal.SIGUSR1, file=open("%s.%d" % (dump, os.getpid()), "w"), all_threads=True)
             try:
                 out = run_case_here(c)
             except BaseException:
@@ -388,7 +489,7 @@ def run_case(c):
     hung = False
     try:
         while True:
-            left = CASE_DEADLINE - (time.time() - t0)
+            left = deadline - (time.time() - t0)
             if left <= 0:
                 hung = True
                 break
@@ -404,6 +505,9 @@ def run_case(c):
         os.close(r)
         if hung:
             try:
+                if os.environ.get("C16_HANG_DUMP"):
+                    os.kill(pid, signal.SIGUSR1)
+                    time.sleep(1.0)
                 os.kill(pid, signal.SIGKILL)
             except OSError:
                 pass
@@ -418,18 +522,28 @@ def run_case(c):
 
 
 def run_case_here(c):
+    global PERF
     progs = c["threads"]
     n = len(progs)
+    sizes = [z for z in c.get("gens", [n]) if z > 0]
+    gens, at = [], 0
+    for z in sizes:
+        gens.append(list(range(at, min(at + z, n))))
+        at += z
+    if at < n:
+        gens.append(list(range(at, n)))
+    gens = [g for g in gens if g]
     old = _debug.options.COLLECT_PERF_STATS
-    _debug.options.COLLECT_PERF_STATS = bool(c.get("perf"))
+    PERF = bool(c.get("perf"))
+    _debug.options.COLLECT_PERF_STATS = PERF
     try:
         solo = []
         for i in range(n):
-            r = run_threads(progs, [i], False)
+            r = run_threads(progs, [[i]], False)
             solo.append(r.envs[i])
         conc = []
         for _ in range(c.get("reps", 1)):
-            r = run_threads(progs, list(range(n)), True)
+            r = run_threads(progs, gens, True)
             rep = []
             for i in range(n):
                 E = r.envs[i]
@@ -445,7 +559,7 @@ def run_case_here(c):
     finally:
         _debug.options.COLLECT_PERF_STATS = old
     return {"solo": [{"trace": S.trace, "tie": S.tie, "anoms": S.anoms, "extra_n": len(S.extra)} for S in solo],
-            "conc": conc}
+            "conc": conc, "ident_reuse": REUSED[0]}
 
 
 if __name__ == "__main__":
